@@ -47,6 +47,7 @@ type BE struct {
 	inferred map[*ssa.Function][]inferredPre
 	// inferred size postconditions of private helpers (bounds4.go inferPost)
 	inferredPost map[*ssa.Function]*Contract
+	exitMemo     map[*ssa.Return]map[string]bool
 }
 
 func newBE(c *Ctx) *BE {
